@@ -14,7 +14,18 @@ Inductive case :=
   (** end to end: requester trace of the workload, the flushes (top-down), the
       control protocol went as expected, and (line address, line PID, bytes
       read directly from the backing Storage after the flushes) *)
-| E2E (tr : list ev) (fls : list flush) (ctrl_ok : bool) (checks : list (N * N * list N)).
+| E2E (tr : list ev) (fls : list (flush * nat * list (N * N * list N))) (ctrl_ok : bool)
+  (** [fls]: the flushes of the run in order, each with the number of requester
+      events recorded when it was acknowledged and the bytes of every written
+      line read from the backing Storage right after it ([] when a lower
+      write-back level has not been flushed yet) *)
+  (** kernel tie of a SEQUENCE of flush requests on one flusher (verif hook):
+      before each request some blocks are re-dirtied; observed per step: the
+      selection and the directory afterwards *)
+| KSeq (bs : N) (d : dir) (steps : list (list (Z * Z) * list N * N)) (obs : list (list (Z * Z) * bool * dir)).
+
+Definition redirty (d : dir) (refs : list (Z * Z)) : dir :=
+  fold_left (fun d r => upd_block d (fst r) (snd r) (set_dirty true)) refs d.
 
 Definition zz_list_eqb := list_eqb zz_eqb.
 
@@ -26,12 +37,24 @@ Definition check_case (c : case) : bool :=
       | Some refs => fin && dir_eqb (finalize d refs) after
       | None => true
       end
-  | E2E tr fls ok checks =>
-      forallb (fun f =>
+  | E2E tr fls ok =>
+      forallb (fun '(f, _, _) =>
         match select (f_bs f) (f_addrs f) (f_pid f) (f_before f) with
         | Some refs => dir_eqb (finalize (f_before f) refs) (f_after f)
         | None => false
         end) fls
+  | KSeq bs d steps obs =>
+      (fix go (d : dir) (steps : list (list (Z * Z) * list N * N)) (obs : list (list (Z * Z) * bool * dir)) : bool :=
+         match steps, obs with
+         | [], [] => true
+         | (rd, addrs, pid) :: st', (sel, fin, after) :: ob' =>
+             let d1 := redirty d rd in
+             match select bs addrs pid d1 with
+             | Some refs => zz_list_eqb refs sel && fin && dir_eqb (finalize d1 refs) after && go after st' ob'
+             | None => false
+             end
+         | _, _ => false
+         end) d steps obs
   end.
 
 (** property clauses on the observed directories: every block keeps its
@@ -76,23 +99,27 @@ Definition holds_on (c : case) : bool :=
       | None => true      (* the pre-flush quiesce guarantees no locked / read block; a panic is the guard *)
       | Some refs => sel_exact bs addrs pid refs d 0 && flags_ok bs addrs pid d after
       end
-  | E2E tr fls ok checks =>
-      ok &&
-      forallb (fun f => flags_ok (f_bs f) (f_addrs f) (f_pid f) (f_before f) (f_after f)) fls &&
-      match run st0 tr with
-      | Some s =>
-          match pend s with
-          | [] =>
-              (* byte by byte: a byte whose (block-aligned) line matches the filter of every
-                 flush must hold the reference value in the backing storage *)
-              forallb (fun '(line, pid, bytes) =>
-                 forallb (fun '(i, v) =>
-                    let a := (line + N.of_nat i)%N in
-                    if forallb (fun f => line_in_filter (f_bs f) f a pid) fls
-                    then (v =? mget (ref s) a)%N else true)
-                   (combine (seq 0 (length bytes)) bytes)) checks
-          | _ => false
-          end
-      | None => false
-      end
+  | E2E tr fls ok =>
+      ok && accepts tr &&
+      forallb (fun '(f, n, checks) =>
+        flags_ok (f_bs f) (f_addrs f) (f_pid f) (f_before f) (f_after f) &&
+        match run st0 (firstn n tr) with
+        | Some s =>
+                (* byte by byte: a byte whose (block-aligned) line matches the filter of this
+                   flush must hold the reference value in the backing storage right after it *)
+                forallb (fun '(line, pid, bytes) =>
+                   forallb (fun '(i, v) =>
+                      let a := (line + N.of_nat i)%N in
+                      if line_in_filter (f_bs f) f a pid then (v =? mget (ref s) a)%N else true)
+                     (combine (seq 0 (length bytes)) bytes)) checks
+        | None => false
+        end) fls
+  | KSeq bs d steps obs =>
+      (fix go (d : dir) (steps : list (list (Z * Z) * list N * N)) (obs : list (list (Z * Z) * bool * dir)) : bool :=
+         match steps, obs with
+         | (rd, addrs, pid) :: st', (sel, fin, after) :: ob' =>
+             let d1 := redirty d rd in
+             sel_exact bs addrs pid sel d1 0 && flags_ok bs addrs pid d1 after && go after st' ob'
+         | _, _ => true
+         end) d steps obs
   end.
